@@ -251,37 +251,55 @@ EXT = {
     "C01": " Added in the second session: the guarded lookup hook in core/cache.py (shadow re-evaluation of every cache hit -> clause "
            "NoStaleHit; key-material log validated by Val_Cache against CacheProtocol.tla, itself model-checked with two negative "
            "controls); families Surrogates, Tsonis, Hilbert, InterSystemRecurrenceNetwork, CoupledClimateNetwork, "
-           "EventSeriesClimateNetwork; same-array mutators; disconnected token-2 graphs.",
+           "EventSeriesClimateNetwork; same-array mutators; disconnected token-2 graphs."
+           ' Third round: the mutator `node_weights~getset` (the caller edits the array the object hands out and assigns it back).',
     "C02": " Added: every third case on a warm object re-weighted in place; group-indexed n.s.i. cross / internal measures of "
-           "InteractingNetworks under Split.",
+           "InteractingNetworks under Split."
+           " Third round: every fourth case uses non-dyadic weights (1.1/1.7/2.5) and proportions (3/10, 7/10); the twins' weights must add up to v's weight to double precision.",
     "C03": " Added: OrderIndependent (same queries in the opposite order on a fresh object); link-weighted variants (strengths, "
            "Fagiolo motif clustering with W^[1/3], weighted path lengths); degree assortativity; eigenvector centrality and "
-           "PageRank as residual conditions.",
+           "PageRank as residual conditions."
+           ' Third round: average path length, closeness and efficiency with link lengths (definitions + order independence); windmill graphs with hub degrees 132 and 256 whose closed-form local and global measures are proved against the definitions on the small instances (Val_C03w).',
     "C04": " Added: list-indexed cross / internal measures of InteractingNetworks under renumbering (balanced split from the spec).",
     "C05": " Added: shuffled-edge igraph / edge-list paths, copies of non-matrix networks, signed attribute values, save-change-save "
-           "histories, GeoNetwork / SpatialNetwork save-Load, total / mean weight consistency on every path.",
+           "histories, GeoNetwork / SpatialNetwork save-Load, total / mean weight consistency on every path."
+           ' Third round: sparse input with explicitly stored zeros; a copy that is edited afterwards leaves the original unchanged.',
     "C06": " Added: input digests taken before construction, dtype / order variants of every caller array, a second object from the "
            "same arrays, function targets, NoStaleHit by shadow re-evaluation, targets EventSeries, Havlin, Hilbert, partial "
            "correlation, CoupledClimateNetwork, EventSeriesClimateNetwork, disconnected and interacting networks, data flagged as "
-           "anomalies.",
+           "anomalies."
+           ' Third round: link lengths that coincide with the placeholder N.',
     "C07": " Added: threshold in units of the standard deviation (exact, ties open); every second case reaches its setting through "
-           "the setter on an object constructed with another setting (all six classes).",
+           "the setter on an object constructed with another setting (all six classes)."
+           ' Third round: adaptive neighbourhood through the setter with a reversed / rotated processing order.',
     "C08": " Added: rqa_summary, recurrence_probability, partially missing state vectors.",
     "C09": " Added: asymmetric matrices with distinct entries (sharp density clause for directed networks); the same behaviours on "
            "CoupledClimateNetwork; NonLocalDef from the harness' coordinates; data-driven subclasses along ObjectSM histories "
-           "(Val_C09d).",
+           "(Val_C09d)."
+           ' Third round: the caller overwrites its similarity matrix after construction.',
     "C10": " Added: partial correlation (cofactors of the covariance matrix), surrogate test matrices (mean product, binned MI), "
-           "translation invariance under a 2^20 offset, all climate classes of a case share one ClimateData.",
-    "C11": " Added: CoupledClimateNetwork wrappers under the same clauses; link-weighted path lengths, closeness, efficiency, strength.",
+           "translation invariance under a 2^20 offset, all climate classes of a case share one ClimateData."
+           ' Third round: Gaussian conditional information transfer (ITY / MIT, one or two conditioning series, both lag modes) against cofactor partial correlations (Val_C10it); relations of the climate mutual-information matrix (symmetry, reordering, equal series).',
+    "C11": " Added: CoupledClimateNetwork wrappers under the same clauses; link-weighted path lengths, closeness, efficiency, strength."
+           ' Third round: all 15 link-attribute signatures driven with link lengths (strengths, average cross closeness, global efficiency).',
     "C12": " Added: Stable (distances unchanged after network analysis), irrigation weights, total / mean weight consistency, "
-           "Euclidean nearest-node lookup, antipodal queries.",
-    "C13": " Added: input representations (int64 / strided / float32), translated time axis, indices_selected_phases.",
-    "C14": " Added: visibility / visibility_single accessors.",
+           "Euclidean nearest-node lookup, antipodal queries."
+           ' Third round: area-weighted connectivity under every node-weight type; Euclidean distances of the translated grid.',
+    "C13": " Added: input representations (int64 / strided / float32), translated time axis, indices_selected_phases."
+           ' Third round: the action set_window(window()) after degenerate views.',
+    "C14": " Added: visibility / visibility_single accessors."
+           ' Third round: every measure queried twice (reversed order on the mirrored object): Repeatable.',
     "C15": " Added: repeated twin_surrogates with another embedding dimension, two series per object, RecurrencePlot.twins / "
-           "twin_surrogates (also after re-thresholding).",
-    "C16": " Added: request order per case on one object, EventSeriesClimateNetwork, sparse length-10 triples.",
-    "C17": " Added: non-ascending node lists in the cross-link replay, isolated highest node (NodeCount).",
-    "C18": " Added: update through the caller's own edited array, non-integral rescaling, int64 construction.",
+           "twin_surrogates (also after re-thresholding)."
+           ' Third round: the same surrogates after normalize_original_data; ties at the recurrence threshold (Surrogates <=, RecurrencePlot <).',
+    "C16": " Added: request order per case on one object, EventSeriesClimateNetwork, sparse length-10 triples."
+           ' Third round: series without events in the analysis matrix, default threshold values / types, translation by 2^25.',
+    "C17": " Added: non-ascending node lists in the cross-link replay, isolated highest node (NodeCount)."
+           ' Third round: cross links prescribed by density, by the null model and as zero.',
+    "C19": " Third round: argument variants of the distributed measures (add_local_ends, stopping_mode=twinness, exclude_neighbors=False), "
+           "the pool path with sources != targets and nsi=False; a sys.exit() of the master program is recorded as the exception of the case.",
+    "C18": " Added: update through the caller's own edited array, non-integral rescaling, int64 construction."
+           ' Third round: complex impedances (linearity, average, closeness); current-flow betweenness under rescaling by 2^24.',
 }
 
 
